@@ -408,7 +408,7 @@ def interface_cases(draw):
 
 # derived=False and self_overload=0: set_dispatch / register on a dataset do not reach copies derived from it earlier
 # (documented as stateful), so copies (also those inside self-referential overloads) are not generated here
-PROFILE = specgen.profile(depth=2, domain_rate=0.0, max_defs=4, effects=True, lazy_root=False, total_preds=True, derived=False, self_overload=0)
+PROFILE = specgen.profile(depth=2, domain_rate=0.0, max_defs=4, effects=True, lazy_root=False, total_preds=True, derived=False, self_overload=0, dclass=False)
 PARTS = [
     Part("histories", check_history, strategy=lambda ctx: history_cases(PROFILE), budget={"quick": 250, "thorough": 1500}),
     Part("interfaces", check_interfaces, strategy=lambda ctx: interface_cases(), budget={"quick": 500, "thorough": 3000}),
